@@ -155,13 +155,21 @@ def seeded(pid_filter, seed):
                 print(json.dumps(rec), flush=True)
                 continue
             if pid in core.PROPS:
-                rc, out, wall = run_check_on(d, pid, seed=seed)
-                sigs = re.findall(r'^violation (\S+)', out, re.M)
-                rec.update(check_exit=rc, wall_s=round(wall, 1), signature=sigs[:1],
-                           killed=(rc == 1 and 'VIOLATION property=' + pid in out))
-                mm = re.search(r'VIOLATION property=\S+ replay=(\S+)', out)
-                if mm and os.path.dirname(mm.group(1)).endswith('replays'):
-                    os.unlink(mm.group(1))
+                # VERIF_SELFTEST_SEEDS=1,2,3: every listed seed must catch the change
+                # (detection by one lucky draw is not detection)
+                seeds = [int(x) for x in os.environ.get('VERIF_SELFTEST_SEEDS', str(seed)).split(',')]
+                per = {}
+                for sd in seeds:
+                    rc, out, wall = run_check_on(d, pid, seed=sd)
+                    sigs = re.findall(r'^violation (\S+)', out, re.M)
+                    per[str(sd)] = (rc == 1 and 'VIOLATION property=' + pid in out)
+                    rec.update(check_exit=rc, wall_s=round(wall, 1), signature=sigs[:1])
+                    mm = re.search(r'VIOLATION property=\S+ replay=(\S+)', out)
+                    if mm and os.path.dirname(mm.group(1)).endswith('replays'):
+                        os.unlink(mm.group(1))
+                rec['killed'] = all(per.values())
+                if len(seeds) > 1:
+                    rec['per_seed'] = per
             else:
                 rec.update(killed=None, note='property not claimed (not applicable to this technique)')
             results.append(rec)
@@ -250,6 +258,9 @@ def main(kind, pid, seed, jobs):
     else:
         print('unknown selftest', kind)
         return 2
+    if kind == 'seeded' and os.environ.get('VERIF_SELFTEST_SEEDS'):
+        kind = 'seeded-multiseed'
+        summary['seeds'] = os.environ['VERIF_SELFTEST_SEEDS']
     if not pid:
         with open(os.path.join(HERE, 'evidence', 'selftest-%s.json' % kind), 'w') as f:
             json.dump({'summary': summary, 'results': res}, f, indent=1, sort_keys=True)
